@@ -450,8 +450,6 @@ class Stress(Strain):
 
         # Get material relation
         D = get_D(e_modulus, poisson_ratio, '3d' if domain.dim == 3 else plane.lower())
-        if domain.dim == 2:
-            D *= domain.element_size[2]
         self.element_matrix = D @ self.element_matrix
 
 
